@@ -244,7 +244,7 @@ func TestVerif_Stream(t *testing.T) {
 			if sc.Kind == "stall" {
 				res := zzverif.Do(stk.addr, rq)
 				ended := res.Elapsed < 11*time.Second
-				kv := append([]any{"at", sc.At, "ended", ended, "ms", res.Elapsed.Milliseconds(), "st", res.Status}, base...)
+				kv := append([]any{"at", sc.At, "rsp", sc.Rsp, "ended", ended, "ms", res.Elapsed.Milliseconds(), "st", res.Status}, base...)
 				b.Emit("Stall", kv...)
 				return
 			}
